@@ -51,6 +51,14 @@ class _Cap(Exception):
     pass
 
 
+def _quantum(timespec):
+    """microseconds resolved by datetime.isoformat(timespec=...)"""
+    q = {"auto": 1, "microseconds": 1, "milliseconds": 1000, "seconds": 10**6, "minutes": 60 * 10**6, "hours": 3600 * 10**6}.get(timespec)
+    if q is None:
+        raise ValueError("Unknown timespec value")
+    return q
+
+
 def ob_pp(tier):
     """real transform_composite_datetime with a proxy `dt` module: strptime is the real one (concrete date text), timedelta is symbolic"""
     import datetime as real_dt
@@ -87,12 +95,12 @@ def ob_pp(tier):
         def __add__(self, td):
             return DTime(self.base, self.us + td.us)
 
-        def isoformat(self, *a, **k):
-            return Iso(self)
+        def isoformat(self, sep="T", timespec="auto"):
+            return Iso(self, _quantum(timespec))
 
     class Iso:
-        def __init__(self, d):
-            self.d = d
+        def __init__(self, d, quantum):
+            self.d, self.quantum = d, quantum
 
     class DT:
         @staticmethod
@@ -122,6 +130,8 @@ def ob_pp(tier):
                 return {"verdict": "inconclusive", "reason": f"transform_composite_datetime returned {type(out)} on proxies"}
             base_us = (out.d.base - real_dt.datetime(1970, 1, 1)) // real_dt.timedelta(microseconds=1)
             got = base_us + out.d.us
+            if out.quantum != 1:
+                got = (got / out.quantum) * out.quantum  # the text printed with a coarser timespec denotes the truncated instant
             want = civil(y, m, d) * 86400 * 10**6 + rnd_half_even(x * 10**6)
             dom = [x >= 0, x < 86400]
             if n == 0:
@@ -163,8 +173,8 @@ def ob_fmt(tier):
         pass
 
     class Parsed:
-        def isoformat(self, *a, **k):
-            cap["iso_args"] = (a, k)
+        def isoformat(self, sep="T", timespec="auto"):
+            cap["iso_args"] = (sep, timespec)
             return Iso()
 
     class DT:
@@ -183,9 +193,10 @@ def ob_fmt(tier):
         out = T.normalize_datetime(sentinel)
     finally:
         T.dt = orig
-    if not isinstance(out, Iso) or cap.get("text") is not sentinel or cap.get("iso_args") != ((), {}):
+    if not isinstance(out, Iso) or cap.get("text") is not sentinel or cap.get("iso_args", (None,))[0] != "T":
         return {"verdict": "inconclusive", "reason": "normalize_datetime does more than strptime(text, fmt).isoformat(); encoding not applicable"}
     fmt = cap["fmt"]
+    quantum = _quantum(cap["iso_args"][1])
     widths = {"Y": 4, "m": 2, "d": 2, "H": 2, "M": 2, "S": 2}
     toks = re.findall(r"%(.)|(.)", fmt)
     for nfrac, what in ((3, "scene-centre yyyymmddhhmmssttt"), (2, "volume creation yyyymmddhhmmssxx")):
@@ -229,7 +240,15 @@ def ob_fmt(tier):
             S.failed.append({"label": f"fmt[{nfrac}]:format {fmt!r} does not consume {what}", "model": {}})
             continue
         us = lambda Y, M_, D_, H_, MI, SS, F: ((((Y * 13 + M_) * 32 + D_) * 24 + H_) * 60 + MI) * 60 * 10**6 + SS * 10**6 + F  # injective ordering key
-        got = us(fields["Y"], fields["m"], fields["d"], fields["H"], fields["M"], fields["S"], fields.get("f") if fields.get("f") is not None else 0)
+        frac_got = fields.get("f") if fields.get("f") is not None else z3.IntVal(0)
+        sec_got = fields["S"]
+        if quantum == 1000:
+            frac_got = (frac_got / 1000) * 1000
+        elif quantum >= 10**6:
+            frac_got = z3.IntVal(0)
+            if quantum > 10**6:
+                sec_got = z3.IntVal(0)  # coarser than seconds: the seconds field is not printed
+        got = us(fields["Y"], fields["m"], fields["d"], fields["H"], fields["M"], sec_got, frac_got)
         want = us(y, mo, d, h, mi, s, frac_us)
         S.holds(f"fmt[{nfrac}]", dom + valid + lit_ok, got == want, show=dg)
     res = S.result(format=fmt)
